@@ -471,6 +471,10 @@ func gen(t *rapid.T) Case {
 			m.Explicit, m.Value = true, rapid.SampledFrom(valueGrid[1:]).Draw(t, "grid")
 		case 6:
 			m.Explicit, m.Value = true, fmt.Sprint(rapid.Int64Range(-3000000000, 5000000000).Draw(t, "val"))
+			if rapid.IntRange(0, 3).Draw(t, "beyond-64-bit") == 0 {
+				// values at and just past the 64-bit limits, where a wrapped number lands back among the small ones
+				m.Value = rapid.SampledFrom([]string{"18446744073709551616", "18446744073709551617", "18446744073709551618", "18446744073709551619", "18446744073709551620", "-18446744073709551616", "-18446744073709551617", "-18446744073709551619", "9223372036854775808", "-9223372036854775809", "36893488147419103232", "36893488147419103233", "18446744073709551615"}).Draw(t, "far-value")
+			}
 		case 7:
 			m.Explicit, m.Value = true, fmt.Sprint(rapid.Int64Range(-10, 40).Draw(t, "small"))
 		default:
